@@ -392,13 +392,15 @@ def module_literal(mi, name: str) -> Optional[Term]:
                 return ("tuple", tuple(items))
         if isinstance(n, ast.Name) and n.id in mi.imports:
             return ("mod", mi.imports[n.id])
+        if isinstance(n, ast.Name) and n.id in mi.functions:
+            return ("mod", f"{mi.name}.{n.id}")
         if isinstance(n, ast.Attribute) and isinstance(n.value, ast.Name) and n.value.id in mi.imports:
             return ("mod", f"{mi.imports[n.value.id]}.{n.attr}")
         if isinstance(n, ast.Call) and not n.keywords and len(n.args) == 1 and isinstance(n.args[0], ast.Constant) \
                 and conv(n.func) == ("mod", "struct.Struct"):
             # a precompiled record layout: an immutable value determined by its format string
             return ("call", ("mod", "struct.Struct"), (("const", n.args[0].value),), ())
-        if isinstance(n, ast.Dict) and all(k is not None for k in n.keys):
+        if isinstance(n, ast.Dict) and len(n.keys) <= 8 and all(k is not None for k in n.keys):
             # a module-level dispatch table {literal: imported function / literal}
             items = [(conv(k), conv(v)) for k, v in zip(n.keys, n.values)]
             if all(k is not None and k[0] == "const" and v is not None for k, v in items):
@@ -441,6 +443,22 @@ def assigned_names(stmts: List[ast.stmt]) -> List[str]:
                 if n.name not in out:
                     out.append(n.name)
     return out
+
+
+def fuse_mapped_domain(dom: Term):
+    """`for x in [f(v) for v in xs]` / `for i, x in enumerate([f(v) for v in xs])` visit xs in order and see f(v):
+    (domain over xs, function that turns the element term of the new loop into x), or None."""
+    inner = dom
+    enum = False
+    if dom[0] == "call" and dom[1] == ("builtin", "enumerate") and len(dom[2]) == 1 and not dom[3]:
+        inner, enum = dom[2][0], True
+    if inner[0] == "listcomp" and len(inner[2]) == 1 and not inner[2][0][2]:
+        d, l, _ = inner[2][0]
+        if d[0] in ("listcomp", "call") and d[0] == "call" and d[1] in (("builtin", "enumerate"), ("builtin", "zip")):
+            return None
+        new_dom = ("call", ("builtin", "enumerate"), (d,), ()) if enum else d
+        return new_dom, (lambda elem, elt=inner[1], d=d, l=l: plug_back(elt, ("iter", d, l), elem))
+    return None
 
 
 def elem_of(dom: Term, lid: int) -> Term:
@@ -1459,6 +1477,9 @@ class Walker:
                 cond = ast.copy_location(ast.If(test=test, body=[loop], orelse=[]), s)
                 ast.fix_missing_locations(cond)
                 return self.statement(cond, env)
+        fused = fuse_mapped_domain(dom)
+        if fused is not None:
+            dom = fused[0]
         sliced = self._slice_domain(dom)
         if sliced is not None:
             dom = sliced[0]
@@ -1502,6 +1523,9 @@ class Walker:
                         and not dom[3]:
                     # `for a, b in zip(xs, ys)`: a is xs[pos], b is ys[pos]
                     v = ("idx", dom[2][path[0]], ("iterproj", dom, li.lid, ("pos",)))
+                if fused is not None and (path == [1] or not path):
+                    # the element of the mapped list is the map applied to the element of the list it was built from
+                    v = fused[1](v)
                 if zip_pos and not path:
                     v = ("iterproj", dom, li.lid, ("pos",))
                 if sliced is not None:
@@ -1730,7 +1754,24 @@ class Walker:
             base = self.ev(e.value, env)
             if base[0] == "mod":
                 if base[1] == CONST_MOD:
-                    return ("K", e.attr)
+                    val = self.repo.constants.get(e.attr)
+                    # textual constants (formats, delimiters) and small tables of them are their literal value; numeric
+                    # ones stay symbolic (the rules speak about FLOAT_MAX, NIL, ... by name)
+                    if isinstance(val, str):
+                        return ("const", val)
+                    if isinstance(val, dict) and val and len(val) <= 8 and all(
+                            isinstance(k, str) and isinstance(v, str) for k, v in val.items()):
+                        return ("dict", tuple((("const", k), ("const", v)) for k, v in val.items()))
+                    return self.subst.get(("K", e.attr), ("K", e.attr))
+                mi2 = self.repo.modules.get(base[1])
+                if mi2 is not None and base[1].startswith("opfython"):
+                    raw = None
+                    module_literal(mi2, e.attr)  # fills the cache
+                    raw = getattr(mi2, "_literals", {}).get(e.attr)
+                    if isinstance(raw, ast.Dict) and len(raw.keys) <= 8:
+                        lit = module_literal(mi2, e.attr)
+                        if lit is not None and lit[0] == "dict":
+                            return lit  # a small dispatch table of another module
                 return ("mod", f"{base[1]}.{e.attr}")
             if base[0] == "call" and base[1] == ("mod", "struct.Struct") and len(base[2]) == 1 and e.attr == "size":
                 return ("call", ("mod", "struct.calcsize"), base[2], ())  # struct.Struct(fmt).size
@@ -1751,6 +1792,16 @@ class Walker:
                 hit = [v for k, v in base[1] if k == ix]
                 if len(hit) == 1:
                     return hit[0]
+            # a per-element table read at position k: [f(v) for v in xs][k] is f(xs[k]) - the value the table holds as
+            # long as nothing f reads was written since it was built (then the local is an ('old', ...) and is left alone)
+            tab = base
+            if tab[0] == "alloc" and tab[1] in ("numpy.array", "numpy.asarray") and len(tab[2]) == 1 and \
+                    set(dict(tab[3])) <= {"dtype"}:
+                tab = tab[2][0]
+            if tab[0] == "listcomp" and len(tab[2]) == 1 and not tab[2][0][2] and ix[0] not in ("slice", "tuple"):
+                d, l, _ = tab[2][0]
+                if not (d[0] == "call" and d[1] in (("builtin", "zip"), ("builtin", "enumerate"), ("builtin", "range"))):
+                    return plug_back(tab[1], ("iter", d, l), ("idx", d, ix))
             return ("idx", base, ix)
         if isinstance(e, ast.Call):
             return self.call(e, env)
@@ -1830,13 +1881,16 @@ class Walker:
             pushed = 0
             for g in e.generators:
                 it = self.ev(g.iter, cenv)
+                cfused = fuse_mapped_domain(it)
+                if cfused is not None:
+                    it = cfused[0]
                 self._lid += 1
                 lid = self._lid
                 li = LoopInfo(lid, "comp", self.fnstack[-1], e, tuple(self.guards), tuple(self.loopstack), domain=it)
                 li.first_seq = self._seq + 1
                 self.loops[lid] = li
 
-                def bind(t, path, it=it, lid=lid):
+                def bind(t, path, it=it, lid=lid, cfused=cfused):
                     if isinstance(t, ast.Name):
                         v = ("iter", it, lid) if not path else ("iterproj", it, lid, tuple(path))
                         if not path:
@@ -1844,6 +1898,8 @@ class Walker:
                         if path == [1] and it[0] == "call" and it[1] == ("builtin", "enumerate") and len(it[2]) == 1 \
                                 and not it[3]:
                             v = ("idx", it[2][0], ("iterproj", it, lid, (0,)))
+                        if cfused is not None and (path == [1] or not path):
+                            v = cfused[1](v)
                         if len(path) == 1 and it[0] == "call" and it[1] == ("builtin", "zip") and len(it[2]) > path[0] \
                                 and not it[3]:
                             v = ("idx", it[2][path[0]], ("iterproj", it, lid, ("pos",)))
@@ -1952,6 +2008,10 @@ class Walker:
                 and args[0][1] in ("numpy.zeros", "numpy.empty", "numpy.ones") and args[0][2] \
                 and args[0][2][0][0] not in ("tuple", "list"):
             return args[0][2][0]
+        # len([f(v) for v in xs]) is len(xs)
+        if fn == ("builtin", "len") and len(args) == 1 and not kwargs and args[0][0] == "listcomp" \
+                and len(args[0][2]) == 1 and not args[0][2][0][2]:
+            args = (args[0][2][0][0],)
         # vars(x) is x.__dict__
         if fn == ("builtin", "vars") and len(args) == 1 and not kwargs:
             return ("attr", args[0], "__dict__")
@@ -2141,7 +2201,12 @@ class Walker:
         rest_same = [(g[1:], v) for g, v in items if g[:1] == ((c, pol),)]
         rest_other = [(g[1:], v) for g, v in items if g[:1] == ((c, not pol),)]
         if len(rest_same) + len(rest_other) != len(items) or not rest_other:
-            return None
+            # the complement of `a or b` is carried as the two guards (not a), (not b)
+            neg = tuple(self.expand_guard(c, not pol))
+            if len(neg) > 1:
+                rest_other = [(g[len(neg):], v) for g, v in items if tuple(g[:len(neg)]) == neg]
+            if len(rest_same) + len(rest_other) != len(items) or not rest_other:
+                return None
         a = self._fold_returns(rest_same)
         b = self._fold_returns(rest_other)
         if a is None or b is None:
